@@ -53,12 +53,18 @@ func (p *PRNG) Float64() float64      { return float64(p.Uint64()>>11) / (1 << 5
 func (p *PRNG) Chance(x float64) bool { return p.Float64() < x }
 func (p *PRNG) Range(lo, hi int) int  { return lo + p.Intn(hi-lo+1) }
 
+func sm64(z uint64) uint64 {
+	z += 0x9e3779b97f4a7c15
+	z = (z ^ (z >> 30)) * 0xbf58476d1ce4e5b9
+	z = (z ^ (z >> 27)) * 0x94d049bb133111eb
+	return z ^ (z >> 31)
+}
+
+// mix hashes a tuple of integers (order-sensitive, well mixed for small values).
 func mix(a ...uint64) uint64 {
-	p := PRNG{s: 0x1234567}
-	var h uint64
-	for _, x := range a {
-		p.s ^= x
-		h = p.Uint64()
+	h := uint64(0x243f6a8885a308d3)
+	for i, x := range a {
+		h = sm64(h ^ sm64(x+uint64(i)*0x632be59bd9b4e019))
 	}
 	return h
 }
